@@ -530,8 +530,9 @@ class StaleAnalysis:
 
     DERIVE = ('getelementptr', 'bitcast', 'ptrtoint', 'inttoptr', 'select', 'addrspacecast')
 
-    def __init__(self, fn, base_tracked, events):
+    def __init__(self, fn, base_tracked, events, stale_at=None):
         self.fn = fn
+        self.stale_at = stale_at
         self.events = set(e.id for e in events)
         self.tracked = set()
         for p in fn.params:
@@ -591,7 +592,7 @@ class StaleAnalysis:
                     else:
                         st.discard(ins.id)  # fresh value
                 if ins.id in self.events:
-                    st = set(self.tracked_defined_before(ins)) | st
+                    st = set(self.tracked_defined_before(ins) if self.stale_at is None else (self.stale_at(ins) & self.tracked)) | st
                 if fn.is_noreturn(ins):
                     dead = True
                     break
